@@ -44,6 +44,7 @@ def run(ctx):
     ctx.guard(r5_window)
     ctx.guard(r6_space)
     ctx.guard(r7_numeric_keys)
+    ctx.guard(r8_table_order)
 
 
 def _walk(stmts):
@@ -614,3 +615,49 @@ def r7_numeric_keys(ctx):
                             "rows once a coordinate or stamp has two digits"
                             % (helper, text(v)[:60]), text_="%s numeric key" % helper)
     ctx.floor("C17.R7", n, 2, "ordering keys parsed from trace rows")
+
+
+# -- R8: per-binding tables follow the order of the binding list -----------------------
+
+def r8_table_order(ctx):
+    """The simulation addresses bindings by their index in the ordered,
+    flattened binding list.  A list handed to the policy callbacks next to
+    that index must be filled in the same order, i.e. by appends inside a loop
+    over the binding list -- not over the caller's `bindings`."""
+    f = ctx.func(T + "_bufferTraffic")
+    blist = None
+    for c in f.own_nodes():
+        if isinstance(c, ast.Call) and text(c.func) == "pre_sim_hook" and c.args:
+            blist = text(c.args[0])
+    ctx.require(blist, "C17.R8: binding list not found")
+    passed = set()
+    for c in f.own_nodes():
+        if isinstance(c, ast.Call) and text(c.func) in ("to_be_buffered", "add_elem") \
+                and c.args and text(c.args[0]) == blist:
+            passed |= {a.id for a in c.args[1:] if isinstance(a, ast.Name)}
+    n = 0
+    for name in sorted(passed):
+        apps = [c for c in f.own_nodes() if isinstance(c, ast.Call)
+                and text(c.func) == name + ".append"]
+        if not apps:
+            continue
+        for c in apps:
+            n += 1
+            loops = [a for a in _anc(c) if isinstance(a, ast.For)]
+            its = []
+            for lp in loops:
+                it = lp.iter
+                if isinstance(it, ast.Call) and text(it.func) == "enumerate" and it.args:
+                    it = it.args[0]
+                its.append(text(it))
+            if blist in its:
+                ctx.ok("C17.R8", f, c, "`%s` filled in the order of the binding "
+                       "list" % name, text_="%s order" % name)
+            else:
+                ctx.bad("C17.R8", f, c, "`%s` is handed to the policy callbacks "
+                        "with a binding index, but it is filled in a loop over "
+                        "%s, not over the ordered binding list `%s`: with "
+                        "bindings listed out of loop order every binding reads "
+                        "another binding's entry" % (name, its or "no loop", blist),
+                        text_="%s order" % name)
+    ctx.floor("C17.R8", n, 1, "per-binding tables passed to the policy callbacks")
